@@ -11,4 +11,6 @@ require (
 	pgregory.net/rapid v1.3.0
 )
 
+require golang.org/x/image v0.0.0-20190802002840-cff245a6509b
+
 replace github.com/tdewolff/minify/v2 => /repo
